@@ -269,6 +269,40 @@ pub fn run(ctx: &Ctx) -> Rep {
     let (r1b, x1b) = merge_states(s1b);
     rep.merge(r1b);
 
+    // ---- (1c) field-structured variants of every card (several fields wrong at once) in a seeded slot of every size
+    let s1c = par_run(ctx, 52, mk, |st, ci| {
+        if ctx.smoke() && ci % 26 != 0 {
+            return;
+        }
+        let base = model::word(ci as u8);
+        let mut rng = Rng::new(seed, 0xC04_0900 + ci as u64);
+        let mut deck: Vec<u8> = (0..52).filter(|&i| i != ci as u8).collect();
+        rng.shuffle(&mut deck);
+        let partners: Vec<u32> = deck[..6].iter().map(|&i| model::word(i)).collect();
+        for (k, v) in model::field_variants(base).into_iter().enumerate() {
+            if ctx.smoke() && k % 97 != 0 {
+                continue;
+            }
+            for n in 2..=7usize {
+                let s = rng.below(n as u64) as usize;
+                let mut h = [0u32; 7];
+                let mut kk = 0;
+                for j in 0..n {
+                    if j == s {
+                        h[j] = v;
+                    } else {
+                        h[j] = partners[kk];
+                        kk += 1;
+                    }
+                }
+                check_hand(st, &h[..n]);
+                st.x.ball_hands += 1;
+            }
+        }
+    });
+    let (r1c, x1c) = merge_states(s1c);
+    rep.merge(r1c);
+
     // ---- (2) every equality pattern of the slots x every class mix ----------
     let k_inst = ctx.pick(1, 2, 16);
     let mut jobs: Vec<(usize, Vec<u8>)> = Vec::new();
@@ -553,7 +587,7 @@ pub fn run(ctx: &Ctx) -> Rep {
     rep.merge(r5);
 
     let mut acc = mk();
-    for x in x1.into_iter().chain(x1b).chain(x2).chain(x2b).chain(x2c).chain(x4b6).chain(x4b7).chain(x3).chain(x4).chain(x5) {
+    for x in x1.into_iter().chain(x1b).chain(x1c).chain(x2).chain(x2b).chain(x2c).chain(x4b6).chain(x4b7).chain(x3).chain(x4).chain(x5) {
         for k in 0..8 {
             acc.valid[k] += x.valid[k];
             acc.invalid[k] += x.invalid[k];
